@@ -68,9 +68,14 @@ for _fd in (M.FD("mode-rw-no-output-w", "Field(mode='rw', no_output='w', default
             M.FD("mode-rw-no-output-w-req", "Field(mode='rw', no_output='w')", mode="rw", no_output="w"),
             M.FD("mode-wa-no-input-a", "Field(mode='wa', no_input='a', default=7)", mode="wa", no_input="a", required=False,
                  default=("v", 7)),
-            M.FD("mode-r-no-output-r", "Field(mode='r', no_output='r', required=False)", mode="r", no_output="r", required=False)):
+            M.FD("mode-r-no-output-r", "Field(mode='r', no_output='r', required=False)", mode="r", no_output="r", required=False),
+            # a Final field with a default never takes input, in any mode and without a mode
+            M.FD("final-default", plain_default="4", required=False, default=("v", 4), no_input=True, ann="typing.Final[int]"),
+            M.FD("final-field-default", "Field(default=4, ge=1)", required=False, default=("v", 4), no_input=True,
+                 ann="typing.Final[int]")):
     M.MENU_BY_TAG.setdefault(_fd.tag, _fd)
-LOCAL_TAGS = ["mode-rw-no-output-w", "mode-rw-no-output-w-req", "mode-wa-no-input-a", "mode-r-no-output-r"]
+LOCAL_TAGS = ["mode-rw-no-output-w", "mode-rw-no-output-w-req", "mode-wa-no-input-a", "mode-r-no-output-r", "final-default",
+              "final-field-default"]
 
 
 def class_decls(tier):
